@@ -3,6 +3,7 @@ package tarad
 import (
 	"bytes"
 	"context"
+	"errors"
 	"fmt"
 	"sort"
 	"strings"
@@ -24,6 +25,9 @@ var Watchdog = 20 * time.Second
 //	tar:default  no UnarchiveFS option (the package's own mem.FS); only the ReaderFS can be inspected
 //	tar:mem      an explicit mem.FS
 //	tar:min      a wrapper exposing only Open, OpenFile, Chmod, Mkdir over a mem.FS
+//	tar:writefail  a mem.FS whose file handles fail every Write after a short delay (a full disk): the stream has
+//	             ended by then, so all background writers fail together. Judged: the unpack terminates (Done closes,
+//	             no hang) and, when a non-empty regular entry was expected to unpack, UnarchiveErr reports a failure
 type ReqAdapter struct {
 	Kind   string
 	Prop   string
@@ -187,6 +191,9 @@ func (in *reqInst) unpack() (o ReqObs) {
 	case "tar:min":
 		m, _ := mem.NewFS()
 		opts.UnarchiveFS, dest = MinFS{m}, m
+	case "tar:writefail":
+		m, _ := mem.NewFS()
+		opts.UnarchiveFS = writeFailFS{m}
 	default:
 		panic("unknown tar adapter " + in.ad.Kind)
 	}
@@ -228,6 +235,24 @@ func (in *reqInst) unpack() (o ReqObs) {
 }
 
 type cmp struct{ what, detail string }
+
+// writeFailFS: every Write through a handle opened for writing fails after a short delay.
+type writeFailFS struct{ *mem.FS }
+
+func (w writeFailFS) OpenFile(name string, flag int, perm hackpadfs.FileMode) (hackpadfs.File, error) {
+	f, err := w.FS.OpenFile(name, flag, perm)
+	if err != nil || flag&(hackpadfs.FlagWriteOnly|hackpadfs.FlagReadWrite) == 0 {
+		return f, err
+	}
+	return writeFailFile{f}, nil
+}
+
+type writeFailFile struct{ hackpadfs.File }
+
+func (w writeFailFile) Write(p []byte) (int, error) {
+	time.Sleep(15 * time.Millisecond)
+	return 0, errors.New("injected: no space left on device")
+}
 
 // CompareTree compares a projected tree with the model's expected tree (function path -> [k, perm, src]).
 // subset: only "what exists must be expected" (failed unpack).
@@ -299,6 +324,19 @@ func (in *reqInst) compare(tr *tla.Value, o ReqObs) []cmp {
 		return []cmp{{"exp=" + exp + " got=HANG", o.String()}}
 	case o.Err != nil:
 		return []cmp{{"exp=" + exp + " got=CONSTRUCTOR-ERR", o.String()}}
+	}
+	if in.ad.Kind == "tar:writefail" {
+		// only termination (above) and fault surfacing are judged on the failing destination
+		nonEmpty := false
+		for _, e := range in.entries {
+			if e.Kind == "file" && Size(e.Sz) > 0 {
+				nonEmpty = true
+			}
+		}
+		if exp == "ok" && nonEmpty && o.Uerr == nil {
+			out = append(out, cmp{"exp=ERR-of-failed-write got=ok", o.String()})
+		}
+		return out
 	}
 	if exp == "ok" && o.Uerr != nil {
 		out = append(out, cmp{"exp=ok got=ERR", o.String()})
